@@ -29,6 +29,9 @@ type LineInfo struct {
 	StartIdx int
 	// LineText
 	LineText []rune
+	// Continued - the line begins inside a multi-line text or comment: it has no
+	// indentation of its own and belongs to the block of the line that token began on
+	Continued bool
 }
 
 // Token - general token type
